@@ -1,8 +1,26 @@
-(* Correspondence runner for C16 (window level). *)
-From V Require Export Model.Replay.
+(* Correspondence runner for C16 (window level and connection level). *)
+From V Require Export Model.Replay Model.ReplayConn.
 Open Scope N_scope.
 
-Record case := mkCase { c_cfg : Z; c_seqs : list N; c_res : list bool }.
+Inductive case :=
+| mkCase (c_cfg : Z) (c_seqs : list N) (c_res : list bool)
+    (* decisions of replayWindow.check on a sequence of numbers *)
+| ConnCase (cfg : Z) (its : list item) (outs : list outcome).
+    (* an established connection: what arrived (genuine record s / anything else), and what the
+       receiving application got after each arrival *)
+
+Definition outcome_eqb (a b : outcome) : bool :=
+  match a, b with
+  | Delivered s, Delivered s' => s =? s'
+  | Nothing, Nothing | Failed, Failed => true
+  | _, _ => false
+  end.
+Fixpoint ol_eqb (a b : list outcome) : bool :=
+  match a, b with
+  | [], [] => true
+  | x :: a', y :: b' => outcome_eqb x y && ol_eqb a' b'
+  | _, _ => false
+  end.
 
 Fixpoint bl_eqb (a b : list bool) : bool :=
   match a, b with
@@ -12,7 +30,10 @@ Fixpoint bl_eqb (a b : list bool) : bool :=
   end.
 
 Definition mismatch (c : case) : bool :=
-  negb (bl_eqb (snd (run (conn_window (c_cfg c)) (c_seqs c))) (c_res c)).
+  match c with
+  | mkCase cfg seqs res => negb (bl_eqb (snd (run (conn_window cfg) seqs)) res)
+  | ConnCase cfg its outs => negb (ol_eqb (snd (conn_run (established cfg) its)) outs)
+  end.
 
 (* property-level predicate on the implementation's decisions, independent of the bitmap:
      1 = a sequence number was accepted twice
@@ -31,7 +52,36 @@ Fixpoint prop_scan (W : N) (acc : list N) (seqs : list N) (res : list bool) : N 
   | _, _ => 0
   end.
 
-Definition spec_code (c : case) : N := prop_scan (prop_w (c_cfg c)) [] (c_seqs c) (c_res c).
+(* connection level, on the payloads the application got (acc: numbers delivered so far, the
+   Finished's 0 included):
+     3 = something was delivered that is not the genuine record that arrived at that point
+     4 = a payload was delivered twice
+     5 = a first arrival newer than everything delivered, or within the window, was not delivered
+     6 = the connection failed (a discarded record must not change what is accepted later) *)
+Fixpoint conn_scan (W : N) (acc : list N) (its : list item) (outs : list outcome) : N :=
+  match its, outs with
+  | it :: t, o :: ot =>
+      match o with
+      | Failed => 6
+      | Delivered s =>
+          match it with
+          | Gen s' => if negb (s =? s') then 3 else if mem s acc then 4 else conn_scan W (s :: acc) t ot
+          | Bogus => 3
+          end
+      | Nothing =>
+          match it with
+          | Gen s => if negb (mem s acc) && ((maxl acc <? s) || (maxl acc - s <? W)) then 5 else conn_scan W acc t ot
+          | Bogus => conn_scan W acc t ot
+          end
+      end
+  | _, _ => 0
+  end.
+
+Definition spec_code (c : case) : N :=
+  match c with
+  | mkCase cfg seqs res => prop_scan (prop_w cfg) [] seqs res
+  | ConnCase cfg its outs => conn_scan (prop_w cfg) [0] its outs
+  end.
 
 Definition mismatches (cs : list (N * case)) : list N :=
   map fst (filter (fun x => mismatch (snd x)) cs).
